@@ -12,6 +12,7 @@ CONSTANTS
   ByzVotes = "support"
   Loss = "none"
   Serve = "prefix"
+  Equiv = TRUE
 INVARIANTS TypeOK VotesOnlyFullyValid PersistOnlyApplicable NoWedge
 ACTION_CONSTRAINT Edge
 VIEW View
